@@ -30,7 +30,7 @@ for p, mods, corr in (
 UPD_TRUST = CORE_TRUST + ["final sort() of the rewritten tables is not modelled (outputs compared as sets of kept records)",
                           "command wiring (acquire, commit) exercised on the real code only"]
 for p, mods in (("C11", ["Vet.Props.C11", "Vet.Props.Commands", "Vet.Props.Renew", "Vet.Props.C11Violation"]), ("C09", ["Vet.Props.C10", "Vet.Props.Commands", "Vet.Props.WFCorollaries"]), ("C10", ["Vet.Props.C10", "Vet.Props.C10Regen", "Vet.Props.Commands", "Vet.Props.CommandsAsk", "Vet.Props.WFCorollaries"]), ("C13", ["Vet.Props.C13", "Vet.Props.C13Twice"])):
-    PROPS[p] = {"lean_modules": mods, "corr": ["corr.wire", "corr.update"] + (["corr.cmd.wiring", "corr.cmd.ask", "corr.cmd.renew"] if p in ("C10", "C11") else []), "trusted": UPD_TRUST, "assumptions": CORE_ASSUME,
+    PROPS[p] = {"lean_modules": mods, "corr": ["corr.wire", "corr.update", "corr.depgraph", "corr.mapper", "corr.requirements", "corr.auditgraph", "corr.search", "corr.resolve"] + (["corr.cmd.wiring", "corr.cmd.ask", "corr.cmd.renew"] if p in ("C10", "C11") else []), "trusted": UPD_TRUST, "assumptions": CORE_ASSUME,
                 "shards": {"quick": 8, "thorough": 16},
                 "explanation": "Theorems about the model of get_store_updates; correspondence of get_store_updates under six update modes per world; oracles on the real output (function layer) and on the three store files around real commands run on disk against a mock network (command layer)."}
 
